@@ -23,6 +23,8 @@ enum Op {
     SelfWake,
     AwaitExt,
     DropHandle,
+    /// a yield polled once and then abandoned (a yield that lost a select or timeout race)
+    YieldOnce(u32),
 }
 
 #[derive(Clone, Debug, PartialEq)]
@@ -90,6 +92,12 @@ async fn body(world: Shared, evlog: Arc<Mutex<Vec<Ev>>>, prog: Vec<Op>, ret: i32
             Op::DropHandle => {
                 co = None;
             }
+            Op::YieldOnce(v) => {
+                if let Some(c) = co.as_mut() {
+                    log(&world, &evlog, Ev::Yielded(v));
+                    let _ = c.yield_(v).now_or_never();
+                }
+            }
         }
     }
     log(&world, &evlog, Ev::ProducerDone(ret));
@@ -122,7 +130,7 @@ pub fn run_gen(p: &Profile, cfg: &RunCfg) -> (RunOut, MonOut) {
             let mut next_v = 1u32;
             let mut dropped = false;
             for i in 0..n {
-                let k = w.draws.weighted(&format!("prog/op#{i}"), &[40, 15, 15, 25, 5]);
+                let k = w.draws.weighted(&format!("prog/op#{i}"), &[40, 15, 15, 25, 5, 8]);
                 match k {
                     0 if !dropped => {
                         prog.push(Op::Yield(next_v));
@@ -140,6 +148,10 @@ pub fn run_gen(p: &Profile, cfg: &RunCfg) -> (RunOut, MonOut) {
                         dropped = true;
                         prog.push(Op::DropHandle);
                     }
+                    5 if !dropped => {
+                        prog.push(Op::YieldOnce(next_v));
+                        next_v += 1;
+                    }
                     _ => prog.push(Op::AwaitExt),
                 }
             }
@@ -148,7 +160,7 @@ pub fn run_gen(p: &Profile, cfg: &RunCfg) -> (RunOut, MonOut) {
             let eager = w.draws.draw("consumer/eager", 3) != 0;
             (prog, ret, variant, eager)
         };
-        let sig = format!("{:?}|v{variant}|e{eager}", prog.iter().map(|o| match o { Op::Yield(_) => 'y', Op::YieldAll(v) => (b'0' + v.len() as u8) as char, Op::SelfWake => 'w', Op::AwaitExt => 'x', Op::DropHandle => 'd' }).collect::<String>());
+        let sig = format!("{:?}|v{variant}|e{eager}", prog.iter().map(|o| match o { Op::Yield(_) => 'y', Op::YieldAll(v) => (b'0' + v.len() as u8) as char, Op::SelfWake => 'w', Op::AwaitExt => 'x', Op::DropHandle => 'd', Op::YieldOnce(_) => 'o' }).collect::<String>());
         mon.sig(sig.clone());
         let expected_items: Vec<u32> = prog
             .iter()
@@ -158,6 +170,19 @@ pub fn run_gen(p: &Profile, cfg: &RunCfg) -> (RunOut, MonOut) {
                 _ => vec![],
             })
             .collect();
+        // an abandoned yield may or may not have queued its item: if delivered, it is delivered in order
+        let possible_items: Vec<u32> = prog
+            .iter()
+            .flat_map(|o| match o {
+                Op::Yield(v) | Op::YieldOnce(v) => vec![*v],
+                Op::YieldAll(vs) => vs.clone(),
+                _ => vec![],
+            })
+            .collect();
+        let subseq = |a: &[u32], b: &[u32]| {
+            let mut it = b.iter();
+            a.iter().all(|x| it.any(|y| y == x))
+        };
         let (w2, l2, p2) = (world.clone(), evlog.clone(), prog.clone());
         let mut consumer = match variant {
             0 => Consumer::Raw(Box::pin(generate(move |co| body(w2, l2, p2, ret, co)))),
@@ -329,7 +354,7 @@ pub fn run_gen(p: &Profile, cfg: &RunCfg) -> (RunOut, MonOut) {
         if finished {
             match variant {
                 0 | 1 | 3 => {
-                    if received != expected_items {
+                    if !(subseq(&expected_items, &received) && subseq(&received, &possible_items)) {
                         mon.viol(pr, "R1", "items", format!("received {:?}, yielded {:?} ({sig})", received, expected_items));
                     }
                 }
